@@ -1,7 +1,7 @@
 """C08 - no undefined behaviour or memory error on any generation path (UB classes visible in the code's shape)."""
 from .. import callgraph, cpp2ir, project
 from ..framework import Report
-from ..rules import arrays, intdiv, inv, vecindex
+from ..rules import arrays, borrow, intdiv, inv, vecindex
 
 
 def run(tier, seed):
@@ -28,9 +28,13 @@ def run(tier, seed):
         '%s:%s' % k: sorted(v)[:6] for k, v in sorted(other.items())
         if k[1] not in ('spthe1', 'spthe2')}
     rep.floor('INV.use-after-invalidate', nb, 6)
+    nbr = borrow.check(rep, prog, prog.functions.keys())
+    rep.analysed['stores of a borrowed argument into a member/static'] = nbr
+    rep.floor('LIFETIME.borrowed', nbr, 2)
     rep.floor('ARRAY.spectrum', sum(1 for i in rep.instances if i.rule == 'ARRAY.spectrum'), 7)
     rep.assumptions += [
-        'decided: use of a particle pointer/reference after the vector may have grown (all functions); literal and '
+        'decided: use of a particle pointer/reference after the vector may have grown (all functions); an argument borrowed by reference/pointer is '
+        'not kept in a member beyond the call (all functions); literal and '
         'counted-loop subscripts of fixed-extent arrays; the spectrum-table obligations; integer division guards',
         'not decided: UB that depends on run-time numerics; subscripts with data-dependent indices listed under '
         '"NOT decided"; anything inside GSL/libstdc++',
